@@ -1506,9 +1506,113 @@ class Normaliser:
                         walk(sub, loop_vars, assigns)
         walk(node.body, set(), {})
 
+    def one_shot_iterators(self, node):
+        """A generator expression (or map / filter / zip object) bound to a local can be walked ONCE.  When a loop without `break` (or
+        list / sum / sorted ...) has walked it, a later walk of the same name sees nothing - recorded as an issue.  Independently:
+        `tuple(<generator>)` / `list(<generator>)` are read as the list comprehension they build, and `sum(1 for v in S)` over a
+        list / tuple local as len(S)."""
+        ONE_SHOT_CALLS = ('map', 'filter', 'zip', 'iter', 'reversed', 'enumerate')
+        EXHAUST = ('list', 'tuple', 'sorted', 'sum', 'set', 'dict', 'max', 'min', 'any', 'all', 'frozenset')
+        own = list(walk_shallow(node))
+        stores = {}
+        for n in own:
+            if isinstance(n, ast.Assign):
+                for t in n.targets:
+                    for nm in target_names(t):
+                        stores.setdefault(nm, []).append(n)
+            elif isinstance(n, (ast.AugAssign, ast.AnnAssign, ast.For)):
+                for nm in target_names(n.target):
+                    stores.setdefault(nm, []).append(n)
+        params = set(self.fi.params)
+
+        def single(nm):
+            if nm in params or len(stores.get(nm, [])) != 1:
+                return None
+            st = stores[nm][0]
+            if isinstance(st, ast.Assign) and len(st.targets) == 1 and isinstance(st.targets[0], ast.Name):
+                return st
+            return None
+        # 1. tuple(gen) / list(gen) -> [..]
+        for n in own:
+            for f, v in ast.iter_fields(n):
+                items = v if isinstance(v, list) else [v]
+                for i, x in enumerate(items):
+                    if isinstance(x, ast.Call) and isinstance(x.func, ast.Name) and x.func.id in ('tuple', 'list') and len(x.args) == 1 \
+                            and not x.keywords and isinstance(x.args[0], ast.GeneratorExp):
+                        new = ast.copy_location(ast.ListComp(elt=x.args[0].elt, generators=x.args[0].generators), x)
+                        if isinstance(v, list):
+                            v[i] = new
+                        else:
+                            setattr(n, f, new)
+        # 2. one-shot iterators walked twice
+        for nm in sorted(stores):
+            st = single(nm)
+            if st is None:
+                continue
+            v = st.value
+            if not (isinstance(v, ast.GeneratorExp) or (isinstance(v, ast.Call) and isinstance(v.func, ast.Name) and v.func.id in ONE_SHOT_CALLS)):
+                continue
+            par = getattr(st, '_parent', None)
+            block = next((b for b in (getattr(par, 'body', None), getattr(par, 'orelse', None)) if isinstance(b, list) and st in b), None) \
+                if par is not None else None
+            if block is None:
+                block = node.body if st in node.body else None
+            if block is None:
+                continue
+            walks = []          # (statement in block, exhaustive?, inside an inner loop?)
+            unknown = False
+            for s2 in block[block.index(st) + 1:]:
+                for u in ast.walk(s2):
+                    if not (isinstance(u, ast.Name) and u.id == nm and isinstance(u.ctx, ast.Load)):
+                        continue
+                    up = getattr(u, '_parent', None)
+                    if isinstance(up, ast.For) and up.iter is u:
+                        exhaustive = not any(isinstance(b, (ast.Break, ast.Return)) for b in ast.walk(up)) and not up.orelse
+                        inner = up is not s2
+                        walks.append((s2, exhaustive, inner, up))
+                    elif isinstance(up, ast.comprehension) and up.iter is u:
+                        walks.append((s2, True, False, up))
+                    elif isinstance(up, ast.Call) and isinstance(up.func, ast.Name) and up.func.id in EXHAUST and up.args and up.args[0] is u:
+                        walks.append((s2, True, False, up))
+                    else:
+                        unknown = True
+            if unknown or len(walks) < 2:
+                continue
+            first, second = walks[0], walks[1]
+            if first[1] and not first[2] and first[0] is not second[0]:
+                self.memo_issues.append((second[3] if hasattr(second[3], 'lineno') else second[0], '!one-shot', nm,
+                                         ['<`%s` is a one-shot iterator (`%s`); `%s` has walked it to the end, so `%s` sees no element>'
+                                          % (nm, U(v)[:60], U(first[0]).split('\n')[0][:50], U(second[0]).split('\n')[0][:60])]))
+        # 3. sum(1 for v in S) over a sized local -> len(S)
+        SIZED = (ast.ListComp, ast.List, ast.Tuple, ast.SetComp, ast.DictComp, ast.Dict, ast.Set)
+        for n in own:
+            for f, v in ast.iter_fields(n):
+                items = v if isinstance(v, list) else [v]
+                for i, x in enumerate(items):
+                    if isinstance(x, ast.Call) and isinstance(x.func, ast.Name) and x.func.id == 'sum' and len(x.args) == 1 and not x.keywords \
+                            and isinstance(x.args[0], ast.GeneratorExp) and len(x.args[0].generators) == 1 and not x.args[0].generators[0].ifs \
+                            and isinstance(x.args[0].elt, ast.Constant) and x.args[0].elt.value == 1 \
+                            and isinstance(x.args[0].generators[0].iter, ast.Name):
+                        st = single(x.args[0].generators[0].iter.id)
+                        if st is None:
+                            continue
+                        sv = st.value
+                        sized = isinstance(sv, SIZED) or (isinstance(sv, ast.Call) and isinstance(sv.func, ast.Name)
+                                                          and sv.func.id in ('list', 'tuple', 'sorted', 'set', 'frozenset'))
+                        if sized:
+                            new = ast.copy_location(ast.Call(func=ast.Name(id='len', ctx=ast.Load()), args=[x.args[0].generators[0].iter], keywords=[]), x)
+                            if isinstance(v, list):
+                                v[i] = new
+                            else:
+                                setattr(n, f, new)
+
     def run(self):
         node = clone(self.fi.node)
         self.memo_issues = []
+        for n_ in ast.walk(node):
+            for ch_ in ast.iter_child_nodes(n_):
+                ch_._parent = n_
+        self.one_shot_iterators(node)
         self.dememoise(node)
         node.body = self.block(node.body, {}, (self.fi.qualname,))
         self.dememoise(node)          # memo tables that came in with inlined helpers
